@@ -883,10 +883,25 @@ func (t *Tree) Compile(file string, args []string, out io.Writer) (err error) {
 			}
 			return consumes, s
 		}
-		for element := range t.Iterator() {
-			if element.GetType() == TypeRule {
-				optimizeAlternates(element)
-				break
+		/* first pass, repeated until nothing changes any more: a rule that is reached again
+		   while it is still being computed (recursion) answers with what the previous round
+		   found for it, so one round is not enough for rules that refer to each other */
+		for changed := true; changed; {
+			previous := slices.Clone(cache)
+			for i := range cache {
+				cache[i].reached = false
+			}
+			for element := range t.Iterator() {
+				if element.GetType() == TypeRule {
+					optimizeAlternates(element)
+					break
+				}
+			}
+			changed = false
+			for i := range cache {
+				if cache[i].consumes != previous[i].consumes || !cache[i].s.Equal(previous[i].s) {
+					changed = true
+				}
 			}
 		}
 
